@@ -591,7 +591,15 @@ def triangle_collapse(prog, rep):
             opp = lambda k: ("index", ("field", me, vi), ("bin", "Rem", ("bin", "Add", ("const", k), i), ("const", 3)))
             from mirq.origin import mk_bin
             def is_opp(t, k):
-                return t[0] == "index" and t[1] == ("field", me, vi) and t[2] in (mk_bin("Rem", mk_bin("Add", ("const", k), i), ("const", 3)), mk_bin("Rem", mk_bin("Add", i, ("const", k)), ("const", 3)))
+                # vertices[(i + k) % 3], the sum in any spelling ((i + 1) + 1, 2 + i ..): compared as a polynomial in i
+                if not (t[0] == "index" and t[1] == ("field", me, vi) and t[2][0] == "bin" and t[2][1] == "Rem" and strip_refs(t[2][3]) == ("const", 3)):
+                    return False
+                from mirq.poly import Poly, tree_to_poly, NotPolynomial
+                from rules.c10 import fold
+                try:
+                    return tree_to_poly(fold(t[2][2]), lambda n_: "i" if n_ == i else None) == Poly.sym("i") + Poly.const(k)
+                except NotPolynomial:
+                    return False
             if len(ln) != 1 or not (is_opp(ln[0][3][0], 1) and is_opp(ln[0][3][1], 2)):
                 bad.append("corner i must be tested against its opposite edge vertices[(i+1)%%3]..vertices[(i+2)%%3]; found %s" % (show(ln[0], maxd=5) if ln else None))
     rep.check(not bad and seen == {"none", "closes", "open"}, "R02.7", "triangle:is_collapsed",
